@@ -131,10 +131,16 @@ func runPrio(c *Ctx) {
 	var current ssa.Value
 	nameGuard, kindGuard, curIsValue := false, false, false
 	rawPath := core.Path(rcall.Common().Args[2])
-	for _, l := range r1.Lits {
+	// the edge's own guards plus, when the discount loop lives in a private helper, the guards of its call site; values
+	// handed in as helper parameters (the current parameter's name) read as the caller's
+	r1Lits := r1.Lits
+	if r1.Inner != nil {
+		r1Lits = p.ILits(r1.Inner.Block())
+	}
+	for _, l := range r1Lits {
 		if l.Kind == "cmp" && l.Op == token.EQL && l.Pol {
-			fx, okx := core.AsFieldLoad(l.X)
-			fy, oky := core.AsFieldLoad(l.Y)
+			fx, okx := core.AsFieldLoad(p.Bind(l.X))
+			fy, oky := core.AsFieldLoad(p.Bind(l.Y))
 			if okx && oky && fx.Field == "Name" && fy.Field == "Name" && fx.Owner == kinds.Value && fy.Owner == kinds.Value {
 				for _, pair := range [][2]core.FieldRef{{fx, fy}, {fy, fx}} {
 					if ta := assertOf(pair[0].Base); ta != nil && core.Path(ta.X) == rawPath {
@@ -158,7 +164,7 @@ func runPrio(c *Ctx) {
 	}
 	if current != nil {
 		curIsValue = false
-		for _, l := range r1.Lits {
+		for _, l := range r1Lits {
 			if l.Kind == "ok" && l.Pol {
 				if ta, ok := l.Of.(*ssa.TypeAssert); ok && ta.X == current && core.NamedOf(ta.AssertedType) == kinds.Value {
 					curIsValue = true
@@ -174,7 +180,11 @@ func runPrio(c *Ctx) {
 	perParam := false
 	if onCopy && current != nil {
 		if ci, ok := current.(ssa.Instruction); ok {
-			perParam = core.InstrDominates(ci, cpCall) && core.Reachable(cpCall.Block(), ci.Block(), nil)
+			// the copy (or the one call of the helper that makes it) lies inside the iteration that selects the parameter
+			as, _ := p.Anchors(cpCall, ci.Parent())
+			if len(as) == 1 {
+				perParam = core.InstrDominates(ci, as[0]) && core.Reachable(as[0].Block(), ci.Block(), nil)
+			}
 		}
 	}
 	c.R.Add("PRIO-D", "resolver|fresh-copy-per-parameter", "resolver", r1.Pos, perParam,
@@ -219,7 +229,7 @@ func runPrio(c *Ctx) {
 		gOK := false
 		if searched != nil {
 			gOK = true
-			for _, s := range core.Sources(searched) {
+			for _, s := range p.ISources(searched) {
 				if p.Bind(s) != ssa.Value(gParam) && !(isCopy && s == ssa.Value(cpCall)) {
 					gOK = false
 				}
